@@ -44,6 +44,9 @@ ARBITRARY = ["", " ", "two words", "9lives", "naïve", "a.b", "SHEEP\n", "None",
              "\u00b5g", "\u03bcg", "\u212b", "\u00c5", "\ufb01sh", "fish", "x\u00b2", "x2",
              # names that merely LOOK like the library's own bookkeeping entries / like private or dunder names
              "class", "big prey", "import", "_tag_wolf", "_tag_", "_tags", "_hidden", "__wolf", "_", "__", "tag_names", "_tag_counter2",
+             # ... or like the private fields an implementation might keep (a cached view, an index, a lock)
+             "_items", "_cache", "_names", "_ids", "_index", "_view", "_lookup", "_lock", "_by_id", "_by_name", "_next_id", "_counter",
+             "_tag_ids", "_registry", "_frozen", "_dirty",
              # text that means something to str.format / %-formatting / templates (error messages quote the name)
              "{x}", "{}", "{0}", "a{b", "}{", "{{a}}", "{0!r:>10}", "%s", "%(x)s", "100%", "%d%%", "${HOME}", "\\", "'q'", "tab\there"]
 PLAIN = ["SHEEP", "WOLF", "GRASS", "PREY", "A", "B", "C", "tag_1", "x"]
